@@ -194,8 +194,18 @@ def obs_diff(rep1, rep2, f):
             "changed": changed, "is_empty": d.is_empty(), "n1": len(t1), "n2": len(t2)}
 
 
-def observe(desc, tmp, cli=False):
-    rep = G.build_report(desc)
+def observe(desc, tmp, cli=False, warm=False):
+    if (warm or desc.get("_live")) and len(desc["suites"]) >= 2:
+        # a LIVE report: the views have already been asked for when the report only held its first suite (intermediate saves of
+        # a run do that), then the report grew; what is observed below must describe the report as it is NOW
+        d0 = dict(desc)
+        d0["suites"] = desc["suites"][:1]
+        rep = G.build_report(d0)
+        obs_junit(rep, tmp), obs_stats(rep), obs_message(rep), [obs_console(rep, f) for f in FILTERS[:1]]
+        for sd in desc["suites"][1:]:
+            rep.add_suite(G._build_suite(sd))
+    else:
+        rep = G.build_report(desc)
     o = {"junit": obs_junit(rep, tmp), "stats": obs_stats(rep), "message": obs_message(rep),
          "console": [obs_console(rep, f) for f in FILTERS], "fsuites": [obs_from_suites(rep, f) for f in FILTERS]}
     if cli:
@@ -811,6 +821,9 @@ def _check(run, tmp):
                 odd = True
                 run.count("reports_with_odd_status")
         with_cli = i < n_cli
+        if len(desc["suites"]) >= 2 and rng.random() < 0.3:
+            desc["_live"] = True          # observed as a live report that grew after its views had been computed once
+            run.count("live_reports")
         o = observe(desc, tmp, cli=with_cli)
         run.evaluations += 1
         tests = [t for _, t in G.all_tests(desc)]
